@@ -994,8 +994,11 @@ func newAddrExpr(args []*internal.Elem) *ast.UnaryExpr {
 }
 
 func zeroCompositeLit(p *Package, typ types.Type, typ0 *types.Type) *ast.CompositeLit {
+	// use the type as given (T{} for a named struct or array type T): the literal of the
+	// underlying type has a different type and cannot even be written for an imported
+	// struct with unexported fields
 	return &ast.CompositeLit{
-		Type: toType(p, typ),
+		Type: toType(p, *typ0),
 	}
 }
 
